@@ -4,6 +4,7 @@ import (
 	"sync"
 
 	"github.com/cbeuw/Cloak/internal/server/usermanager"
+	"github.com/cbeuw/Cloak/internal/verifhook"
 
 	mux "github.com/cbeuw/Cloak/internal/multiplex"
 )
@@ -32,6 +33,7 @@ func (u *ActiveUser) CloseSession(sessionID uint32, reason string) {
 	}
 	remaining := len(u.sessions)
 	u.sessionsM.Unlock()
+	verifhook.At("user.closesession.unlocked", uint64(sessionID), uint64(remaining))
 	if remaining == 0 {
 		u.panel.TerminateActiveUser(u, "no session left")
 	}
@@ -46,6 +48,7 @@ func (u *ActiveUser) GetSession(sessionID uint32, config mux.SessionConfig) (ses
 	if sesh = u.sessions[sessionID]; sesh != nil {
 		return sesh, true, nil
 	} else {
+		verifhook.At("user.getsession.miss", uint64(sessionID))
 		if !u.bypass {
 			ainfo := usermanager.AuthorisationInfo{NumExistingSessions: len(u.sessions)}
 			err := u.panel.Manager.AuthoriseNewSession(u.arrUID[:], ainfo)
